@@ -173,18 +173,21 @@ func genC04(r *vc.Run) {
 		newN     int
 		newT     int
 		noProofs bool
+		newIds   string // "" = small distinct ids; "congruent" = two ids equal modulo the order; "zero" = one id a multiple of the order
 	}
 	cfgs := []cfg{
-		{"ed25519", "kg:3:1", []int{0, 1}, 3, 1, false}, {"ed25519", "kg:3:1", []int{0, 1, 2}, 4, 2, false}, {"ed25519", "kg:5:2", []int{0, 2, 4}, 3, 1, false},
-		{"ed25519", "kg:5:2", []int{0, 1, 2, 3}, 5, 3, false}, {"ed25519", "kg:3:2", []int{0, 1, 2}, 2, 1, false},
-		{"secp256k1", "fixture", []int{0, 1, 2}, 3, 1, false},
+		{"ed25519", "kg:3:1", []int{0, 1}, 3, 1, false, ""}, {"ed25519", "kg:3:1", []int{0, 1, 2}, 4, 2, false, ""}, {"ed25519", "kg:5:2", []int{0, 2, 4}, 3, 1, false, ""},
+		{"ed25519", "kg:5:2", []int{0, 1, 2, 3}, 5, 3, false, ""}, {"ed25519", "kg:3:2", []int{0, 1, 2}, 2, 1, false, ""},
+		{"secp256k1", "fixture", []int{0, 1, 2}, 3, 1, false, ""},
+		// new committees whose ids are not usable as evaluation points: dealing must refuse, every old share stays
+		{"ed25519", "kg:3:1", []int{0, 1}, 3, 2, false, "congruent"}, {"ed25519", "kg:3:1", []int{0, 2}, 3, 1, false, "zero"},
 		// a key on a curve the application brings itself (NIST P-256), threshold raised
-		{"p256", "p256:kg:2:1", []int{0, 1}, 3, 2, false},
+		{"p256", "p256:kg:2:1", []int{0, 1}, 3, 2, false, ""},
 	}
 	if r.Thorough() {
-		cfgs = append(cfgs, cfg{"secp256k1", "fixture", []int{0, 1, 2, 3}, 4, 3, false}, cfg{"secp256k1", "fixture", []int{1, 2, 4}, 3, 2, true}, cfg{"secp256k1", "kg:3:1", []int{0, 2}, 3, 2, false},
-			cfg{"ed25519", "kg:4:2", []int{0, 1, 3}, 5, 2, false}, cfg{"ed25519", "kg:5:4", []int{0, 1, 2, 3, 4}, 3, 2, false},
-			cfg{"p256", "p256:kg:3:1", []int{0, 2}, 2, 1, true})
+		cfgs = append(cfgs, cfg{"secp256k1", "fixture", []int{0, 1, 2, 3}, 4, 3, false, ""}, cfg{"secp256k1", "fixture", []int{1, 2, 4}, 3, 2, true, ""}, cfg{"secp256k1", "kg:3:1", []int{0, 2}, 3, 2, false, ""},
+			cfg{"ed25519", "kg:4:2", []int{0, 1, 3}, 5, 2, false, ""}, cfg{"ed25519", "kg:5:4", []int{0, 1, 2, 3, 4}, 3, 2, false, ""},
+			cfg{"p256", "p256:kg:3:1", []int{0, 2}, 2, 1, true, ""}, cfg{"secp256k1", "fixture", []int{0, 1, 2}, 3, 1, false, "congruent"})
 	}
 	for ci, c := range cfgs {
 		q := curveByName(c.curve).Params().N
@@ -218,6 +221,12 @@ func genC04(r *vc.Run) {
 			pub = ptPair(keys[0].ECDSAPub)
 		}
 		newKs := defaultKeys(c.newN, 1000+int64(ci)*10)
+		switch c.newIds {
+		case "congruent":
+			newKs[c.newN-1] = new(big.Int).Add(newKs[0], q)
+		case "zero":
+			newKs[c.newN-1] = mul(q, big.NewInt(2))
+		}
 		tails := make([][]*big.Int, len(c.old))
 		tl := make(val.List, len(c.old))
 		for i := range tails {
@@ -236,7 +245,19 @@ func genC04(r *vc.Run) {
 			strat = sched.Random
 		}
 		obs, rr := runReshare(c.curve, c.keyref, c.old, c.newT, c.noProofs, tails, newKs, strat, r.Seed+int64(ci), nil)
-		r.Record(fmt.Sprintf("reshare/%s/old%d->(%d,%d)", c.curve, len(c.old), c.newN, c.newT), true, "reshare", args, obs)
+		r.Record(fmt.Sprintf("reshare/%s/old%d->(%d,%d)%s", c.curve, len(c.old), c.newN, c.newT, c.newIds), true, "reshare", args, obs)
+		if c.newIds != "" {
+			reshareOracles(r, rr, c.curve, c.newT, pub, vc.Line("reshare", args), false)
+			if len(rr.res.xi) > 0 {
+				r.Violate("reshare-accepts-bad-ids|"+c.newIds, "resharing produced new key data although a new id is 0 or two new ids coincide modulo the group order", vc.Line("reshare", args))
+			}
+			for i, x := range rr.oldXi {
+				if x.Cmp(rr.oldXiOrig[i]) != 0 {
+					r.Violate("reshare-key-lost|"+c.curve, fmt.Sprintf("a resharing to unusable new ids did not complete but old member O%d's share is gone", i), vc.Line("reshare", args))
+				}
+			}
+			continue
+		}
 		reshareOracles(r, rr, c.curve, c.newT, pub, vc.Line("reshare", args), true)
 		// the new committee signs under the old public key (t'+1 members)
 		if c.curve == "ed25519" && len(rr.res.xi) == c.newN {
